@@ -275,6 +275,9 @@ impl MarkerString {
 }
 //@@ unrename Marker
 
+// ---- PINS: functions of /repo this unit (or the property it serves) only ASSUMES something about — a hand-written shim stands for them, or nothing at
+// all does. The assumption was made for one text of each; the token hash ties it to that text: a change makes the unit UNDECIDED (exit 2), never OK.
+//@@ pin src/api/rule.rs :: impl Rule / fn get_marker = e3f1be81f83d
 //@@ strlits
 } // verus!
 fn main() {}
